@@ -409,6 +409,15 @@ def msatPanics (p : Policy) (i : Info) : Bool :=
   (i.offered ++ i.received).any (fun h => decide (h.value * 1000 > U64.MAX))
   || i.holderOffered.any (fun h => decide (h.value * 1000 + p.maxRoutingFeeMsat > U64.MAX))
 
+/-- LDK `build_htlc_transaction` computes `amount − feerate·weight/1000` with a panicking `Amount`
+    subtraction (no fee for zero-fee-HTLC anchors).  Only reachable when the trim-limit check was
+    downgraded by the filter; the signer wraps the call in `catch_panic!` and answers with an internal
+    error. -/
+def htlcTxUnderflow (s : Setup) (i : Info) : Bool :=
+  !s.isZeroFeeHtlc &&
+    (i.offered.any (fun h => decide (h.value < i.feerate * htlcTimeoutWeight / 1000)) ||
+     i.received.any (fun h => decide (h.value < i.feerate * htlcSuccessWeight / 1000)))
+
 /-! ### enforcement-state updates -/
 
 /-- `Validator::set_next_counterparty_commit_num` + `EnforcementState::set_next_counterparty_commit_num` -/
@@ -448,6 +457,8 @@ def signCounterparty (p : Policy) (s : Setup) (c : ChainState) (e : EState) (n :
   whenE (msatPanics p i) (.error .panic)
   -- make_counterparty_commitment_tx: `INITIAL_COMMITMENT_NUMBER - commitment_number` (plain `-`)
   whenE (decide (n > initialCommitmentNumber)) (.error .panic)
+  -- keys.sign_counterparty_commitment inside catch_panic!: "failed to sign"
+  hard .other (htlcTxUnderflow s i)
   let n1 ← addU64 n 1
   setNextCpCommit p e n1 point i
 
